@@ -19,6 +19,7 @@ ID = "C17"
 LEVEL = "exploration"
 DESIGN_REF = "5/C17"
 TECHNIQUE = "property-based differential testing across workers, process counts, limits and schedules"
+WALL = {"quick": 120, "thorough": 1500}
 RULE = (
     "cases = (workflow program from the C03 generator, list of 4-5 configurations drawn from "
     "{debug, cf n_procs in 1/2/8, sched with generated completion orders} x max_concurrent in "
@@ -107,4 +108,4 @@ def run(sh):
         if case.pop("_timed_out", False):
             sh.count("inconclusive_timed_out")
 
-    sh.given(cases(), body, sh.budget(48, 700), tag="diff")
+    sh.given(cases(), body, sh.budget(32, 700), tag="diff")
